@@ -1,7 +1,7 @@
 (* Props/C08.v — C08: RESP encoding and decoding round-trip, independent of stream chunking.
    Model: Resp/Frame.v ([enc] = Connection::write_frame, [parse]/[check] = Frame::parse/check),
    Resp/Conn.v ([read_all] = repeated Connection::read_frame over scripted socket reads). *)
-From BC Require Import Resp.Frame Resp.Conn Resp.IntProofs Resp.FrameProofs Resp.RoundTrip.
+From BC Require Import Resp.Frame Resp.Conn Resp.IntProofs Resp.FrameProofs Resp.RoundTrip Resp.Prefix Resp.Stream.
 Open Scope Z_scope.
 
 (* 1. Any frame the connection can write ([writable]: simple strings / errors that are UTF-8 without
@@ -50,10 +50,29 @@ Example C08_roundtrip_example :
   writable f = true /\ exists bs, enc f = Ok bs /\ parse (fixed Debug) (bs ++ [42]%N) = Ok (f, [42]%N).
 Proof. cbv zeta. split; [reflexivity|]. eexists. split; [reflexivity|]. vm_compute. reflexivity. Qed.
 
-(* Still to be proved in Coq (stated here, decided for now by the deterministic differential runs of
-   `bin/check C08`, which deliver every generated stream whole, bytewise, at random cuts and inside
-   each CRLF, and also cut short inside its last frame):
-     C08_prefix_incomplete : writable f -> enc f = Ok bs -> strict_prefix p bs -> check (fixed b) p = Err Incomplete
-     C08_stream            : Forall writable fs -> concat segs = concat (map enc fs) ->
-                             read_all (fixed b) segs [] = map RFrame fs ++ [RClean]
-     C08_truncated_is_error: ... stream ends inside a frame -> last result = RReset *)
+(* 4. Every strict prefix of the encoding of a writable frame is reported as incomplete by the
+      completeness check — never as an error, never as a shorter frame — so the connection waits. *)
+Theorem C08_prefix_incomplete : forall b f bs p, writable f = true -> enc f = Ok bs -> sprefix p bs ->
+  check (fixed b) p = Err Incomplete /\ parse_frame (fixed b) p = Ok None.
+Proof. intros b f bs p Hw He Hp. split; [exact (check_prefix b f bs p Hw He Hp)|exact (parse_frame_prefix b f bs p Hw He Hp)]. Qed.
+Print Assumptions C08_prefix_incomplete.
+
+(* 5. A concatenation of encoded frames is decoded to the same sequence of frames, then a clean end,
+      however the bytes are delivered: for EVERY list of socket reads [segs] whose concatenation is
+      the stream (one byte at a time, all at once, cut anywhere). *)
+Theorem C08_stream : forall b segs fs es, Forall2 encodes fs es -> concat segs = concat es ->
+  read_all (fixed b) segs [] = map RFrame fs ++ [RClean].
+Proof. intros b segs fs es HF H. exact (read_all_stream b segs fs es [] HF H). Qed.
+Print Assumptions C08_stream.
+
+(* 6. A stream that ends inside a frame delivers the frames before it and then a connection reset,
+      not a clean end, again for every segmentation. *)
+Theorem C08_truncated_is_error : forall b segs fs es f e part, Forall2 encodes fs es -> encodes f e ->
+  sprefix part e -> part <> [] -> concat segs = concat es ++ part ->
+  read_all (fixed b) segs [] = map RFrame fs ++ [RReset].
+Proof. intros b segs fs es f e part HF He Hp Hn H. exact (read_all_truncated b segs fs es f e part [] HF He Hp Hn H). Qed.
+Print Assumptions C08_truncated_is_error.
+
+Example C08_stream_example :
+  read_all (fixed Debug) [[43; 79]; [75; 13]; [10; 58; 45]; [53; 13; 10]]%N [] = [RFrame (Simple [79; 75]%N); RFrame (Integer (-5)); RClean].
+Proof. vm_compute. reflexivity. Qed.
